@@ -980,9 +980,12 @@ fn search_case(out: &mut Out, c: &Case) {
     }
     for (oracle, what) in &v.failures {
         let small = shrink(c, oracle);
+        // describe the failure of the shrunk input (that is what the replay file holds)
+        let io2 = run_impl(&small);
+        let what2 = evaluate(&small, &io2).failures.iter().find(|(o, _)| o == oracle).map(|(_, w)| w.clone()).unwrap_or_else(|| what.clone());
         let mut w = small.to_json();
         w["oracle"] = json!(oracle);
-        out.fail(oracle, what, w);
+        out.fail(oracle, &what2, w);
     }
 }
 
